@@ -65,13 +65,22 @@ def suppress_body(method: str, status_code: int) -> bool:
 
 
 def build_and_validate_headers(headers: Iterable[Tuple[bytes, bytes]]) -> List[Tuple[bytes, bytes]]:
-    # Validates that the header name and value are bytes
+    # Validates that the header name and value are bytes, and that
+    # neither can break out of its header field (HTTP/2 and HTTP/3
+    # would carry a CR, LF or NUL through to the client).
     validated_headers: List[Tuple[bytes, bytes]] = []
     for name, value in headers:
         if name[0] == b":"[0]:
             raise ValueError("Pseudo headers are not valid")
-        validated_headers.append((bytes(name).strip(), bytes(value).strip()))
+        name, value = bytes(name).strip(), bytes(value).strip()
+        if has_illegal_header_bytes(name) or has_illegal_header_bytes(value):
+            raise ValueError("Header names and values cannot contain CR, LF or NUL")
+        validated_headers.append((name, value))
     return validated_headers
+
+
+def has_illegal_header_bytes(data: bytes) -> bool:
+    return b"\r" in data or b"\n" in data or b"\x00" in data
 
 
 def filter_pseudo_headers(headers: List[Tuple[bytes, bytes]]) -> List[Tuple[bytes, bytes]]:
